@@ -1,3 +1,4 @@
+import Rivaas.Model.RouteOpts
 import Rivaas.Spec.Chain
 import Rivaas.Spec.Compose
 import Rivaas.Lemmas.ChainSim
@@ -554,5 +555,42 @@ theorem where_after_warmup_example :
     compose script none [1] = some [1, 3, 2] ∧ chainOK script tg [1, 3, 2] = true ∧
     chainOK script tg [1, 3, 1, 1, 2] = false := by decide
 
+
+/-! ## per-route options of the app layer (`app/route_option.go`) -/
+section RouteOptions
+open Rivaas.RouteOpts
+
+mutual
+  theorem lemma_apply_lists (c : RouteConfig) (o : ROpt) :
+      (apply c o).before = c.before ++ listedBefore o ∧ (apply c o).after = c.after ++ listedAfter o := by
+    cases o with
+    | before hs => simp [apply, listedBefore, listedAfter]
+    | after hs => simp [apply, listedBefore, listedAfter]
+    | doc => simp [apply, listedBefore, listedAfter]
+    | set opts =>
+      have := lemma_applyAll_lists c opts
+      simpa [apply, listedBefore, listedAfter] using this
+  theorem lemma_applyAll_lists (c : RouteConfig) (os : List ROpt) :
+      (applyAll c os).before = c.before ++ listedBeforeAll os ∧ (applyAll c os).after = c.after ++ listedAfterAll os := by
+    cases os with
+    | nil => simp [applyAll, listedBeforeAll, listedAfterAll]
+    | cons o os =>
+      have h1 := lemma_apply_lists c o
+      have h2 := lemma_applyAll_lists (apply c o) os
+      simp [applyAll, listedBeforeAll, listedAfterAll, h2.1, h2.2, h1.1, h1.2, List.append_assoc]
+end
+
+/-- **Per-route options.** However the before / after handlers of an app route are spelled — one option, several
+    in a row, reusable sets, sets inside sets, documentation options in between — the route's chain is the listed
+    before-handlers in the order written, the handler, the listed after-handlers in the order written. -/
+theorem route_options_in_listed_order (handler : Nat) (opts : List ROpt) :
+    chain handler opts = listedBeforeAll opts ++ [handler] ++ listedAfterAll opts := by
+  have := lemma_applyAll_lists {} opts
+  simp [chain, this.1, this.2]
+
+example :
+    chain 9 [.before [1], .set [.before [2], .doc, .set [.after [5], .before [3]]], .after [6], .before [4]] =
+      [1, 2, 3, 4, 9, 5, 6] := by decide
+end RouteOptions
 
 end Rivaas.C02
